@@ -44,6 +44,37 @@ LitExprs(i) == UNION { { <<Json(Spell[i]), EqT, Json(Spell[j])>>, <<Json(Spell[i
 
 FalseLike == { Null, JFalse, Str(<<>>), Arr(<<>>), Obj(<<>>) }
 
+\* Beyond the number model (numerals of more than 34 digits, which the
+\* implementation must round somehow; 64-bit limits; binary floats): the VALUE
+\* of these expressions is not pinned here, but the laws checked above on the
+\* model -- Reflexive, Symmetric, Transitive, NeIsNegation, ContainsIsExistsEq --
+\* hold for every value whatsoever.  The harness evaluates  Ei == Ej,  Ei != Ej
+\* and  contains([Ej], Ei)  for all pairs on the real code and checks the
+\* relation it finds against those laws ("eqlaws" case).
+LawExprs == << <<96,49,48,48,48,48,48,48,48,48,48,48,48,48,48,48,48,48,48,48,48,48,48,48,48,48,48,48,48,48,48,48,48,48,48,48,48,49,96>>, <<96,49,48,48,48,48,48,48,48,48,48,48,48,48,48,48,48,48,48,48,48,48,48,48,48,48,48,48,48,48,48,48,48,48,48,48,48,48,96>>, <<96,49,101,51,54,96>>,
+               <<96,49,48,48,48,48,48,48,48,48,48,48,48,48,48,48,48,48,48,48,48,48,48,48,48,48,48,48,48,48,48,48,48,48,48,48,48,49,96,32,43,32,96,48,96>>, <<116,111,95,110,117,109,98,101,114,40,39,49,48,48,48,48,48,48,48,48,48,48,48,48,48,48,48,48,48,48,48,48,48,48,48,48,48,48,48,48,48,48,48,48,48,48,48,49,39,41>>,
+               <<97,98,115,40,96,45,49,48,48,48,48,48,48,48,48,48,48,48,48,48,48,48,48,48,48,48,48,48,48,48,48,48,48,48,48,48,48,48,48,48,48,48,49,96,41>>, <<96,49,48,48,48,48,48,48,48,48,48,48,48,48,48,48,48,48,48,48,48,48,48,48,48,48,48,48,48,48,48,48,48,48,48,48,52,57,96>>, <<96,49,48,48,48,48,48,48,48,48,48,48,48,48,48,48,48,48,48,48,48,48,48,48,48,48,48,48,48,48,48,48,48,48,48,48,53,49,96>>,
+               <<96,49,46,48,48,48,48,48,48,48,48,48,48,48,48,48,48,48,48,48,48,48,48,48,48,48,48,48,48,48,48,48,48,48,48,48,48,52,57,101,51,54,96>>, <<97>>, <<98>>, <<99>>, <<97,32,42,32,96,49,96>>, <<45,40,45,97,41>>,
+               <<96,49,56,52,52,54,55,52,52,48,55,51,55,48,57,53,53,49,54,49,53,96>>, <<96,49,56,52,52,54,55,52,52,48,55,51,55,48,57,53,53,49,54,49,54,96>>, <<96,49,46,56,52,52,54,55,52,52,48,55,51,55,48,57,53,53,49,54,49,53,101,49,57,96>>, <<117>>, <<117,32,43,32,96,49,96>>, <<117,32,43,32,96,49,96,32,45,32,96,49,96>>,
+               <<96,48,46,49,96,32,43,32,96,48,46,50,96>>, <<96,48,46,51,96>>, <<101,32,43,32,102>>, <<103>>, <<101,32,43,32,96,48,46,50,96>>, <<96,48,46,51,48,48,48,48,48,48,48,48,48,48,48,48,48,48,48,52,96>>, <<115,117,109,40,91,101,44,32,102,93,41>>,
+               <<96,48,46,49,48,48,48,48,48,48,48,48,48,48,48,48,48,48,48,48,53,53,53,49,49,49,53,49,50,51,49,50,53,55,56,50,55,96>>, <<101>>, <<101,32,42,32,96,49,96>>, <<96,48,46,49,96>>, <<116,111,95,110,117,109,98,101,114,40,39,48,46,49,39,41>>,
+               <<91,97,93>>, <<91,96,49,48,48,48,48,48,48,48,48,48,48,48,48,48,48,48,48,48,48,48,48,48,48,48,48,48,48,48,48,48,48,48,48,48,48,48,48,96,93>>, <<91,98,93>>, <<123,107,58,32,97,125>>, <<123,107,58,32,98,125>>, <<123,107,58,32,96,49,101,51,54,96,125>>,
+               <<104>>, <<96,57,48,48,55,49,57,57,50,53,52,55,52,48,57,57,51,96>>, <<104,32,43,32,96,48,96>>, <<96,57,48,48,55,49,57,57,50,53,52,55,52,48,57,57,50,96>>, <<105>>, <<105,32,43,32,96,49,96>> >>
+LawDoc == [t |-> "obj", o |-> <<
+  [k |-> <<97>>, v |-> [t |-> "num", big |-> "1000000000000000000000000000000000001"]],
+  [k |-> <<98>>, v |-> [t |-> "num", big |-> "1e36"]],
+  [k |-> <<99>>, v |-> [t |-> "num", big |-> "1e36"]],
+  [k |-> <<101>>, v |-> [t |-> "num", big |-> "0.1"]],
+  [k |-> <<102>>, v |-> [t |-> "num", big |-> "0.2"]],
+  [k |-> <<103>>, v |-> [t |-> "num", big |-> "0.3"]],
+  [k |-> <<104>>, v |-> [t |-> "num", big |-> "9007199254740993"]],
+  [k |-> <<105>>, v |-> [t |-> "num", big |-> "9007199254740992"]],
+  [k |-> <<117>>, v |-> [t |-> "num", big |-> "18446744073709551615"]] >>]
+\* carriers in member order a b c e f g h i u (floats here are deliberately inexact: the laws hold for any values)
+LawCarriers == << <<"json", "json", "json", "json", "json", "json", "json", "json", "json">>,
+                  <<"json", "decimal", "floatany", "floatany", "floatany", "floatany", "int64", "floatany", "uint64">>,
+                  <<"decimal", "json", "decimal", "floatany", "json", "decimal", "json", "int64", "json">> >>
+
 Check == idx > 0 =>
   IF idx <= N
   THEN LET i == bucket  j == idx
@@ -66,5 +97,7 @@ Check == idx > 0 =>
        (i <= Len(Spell)) =>
           LET cases == { [expr |-> Render(e), adm |-> Admissible(e, Null)] : e \in LitExprs(i) }
               case == [p |-> Prop, kind |-> "search", doc |-> Null, multi |-> cases]
-          IN Emit => PrintT("CASE " \o ToJson(case))
+          IN /\ Emit => PrintT("CASE " \o ToJson(case))
+             /\ (Emit /\ i <= Len(LawCarriers)) =>
+                   PrintT("CASE " \o ToJson([p |-> Prop, kind |-> "eqlaws", exprs |-> LawExprs, doc |-> LawDoc, carriers |-> LawCarriers[i]]))
 =============================================================================
